@@ -179,6 +179,17 @@ def check_form(run, ct, rng, f, spec_norm, quick):
     cmp("einsum(interleaved)", lambda: ct.einsum(*inter_args, optimize=opt), {"interleaved-form"})
     if rng.random() < 0.5:
         cmp("einsum_expression(eq)", lambda: ct.einsum_expression(eq, *shapes, optimize=opt)(*arrays), {"equation-form"})
+        if len(arrays) >= 2 and not any(0 in a.shape for a in arrays):
+            # one operand folded into the expression as a constant; built twice with DIFFERENT constant values
+            ci = rng.randrange(len(arrays))
+
+            def with_const(scale):
+                ops = [(arrays[k] * scale if k == ci else shapes[k]) for k in range(len(arrays))]
+                ex = ct.einsum_expression(eq, *ops, constants=[ci], optimize=opt)
+                return ex(*[a for k, a in enumerate(arrays) if k != ci]) / scale
+            cmp("einsum_expression(eq, constants=[i])", lambda: with_const(1.0), {"equation-form", "constants"})
+            cmp("einsum_expression(eq, constants=[i]) built again with other constant values", lambda: with_const(2.0),
+                {"equation-form", "constants"})
         if len(arrays) >= 2:
             cmp("einsum_tree(eq).contract", lambda: ct.einsum_tree(eq, *shapes, optimize=opt).contract(arrays), {"equation-form"})
     # --- what the parser produced, for TLC ---------------------------------------------------------
@@ -233,11 +244,21 @@ def ncon_cases(run, ct, rng, count):
         nb = rng.randint(0, 4)
         no = rng.randint(0, 3)
         inds = [[] for _ in range(n)]
+        # "negative integers specify outputs", whatever their multiplicity; non-negative ones are summed, whatever theirs
         for b in range(1, nb + 1):
-            for t in (rng.sample(range(n), 2) if n > 1 else [0, 0]):
+            r_ = rng.random()
+            if r_ < 0.1:
+                where = [rng.randrange(n)]                                   # a label that occurs once: summed
+            elif r_ < 0.2 and n >= 3:
+                where = rng.sample(range(n), 3)                              # a hyper bond
+            else:
+                where = rng.sample(range(n), 2) if n > 1 else [0, 0]
+            for t in where:
                 inds[t].append(b)
         for o in range(1, no + 1):
-            inds[rng.randrange(n)].append(-o)
+            where = rng.sample(range(n), 2) if (n > 1 and rng.random() < 0.2) else [rng.randrange(n)]   # an open leg on two tensors
+            for t in where:
+                inds[t].append(-o)
         for t in inds:
             rng.shuffle(t)
         ext = {}
